@@ -534,6 +534,14 @@ class Interp:
         self.frame.env[n.target.id] = v
         return v
 
+    def e_Yield(self, n):
+        v = self.ev(n.value) if n.value is not None else NONE
+        hook = getattr(self, "yield_hook", None)
+        if hook is None:
+            self.unsupported("yield outside a @contextmanager contract", n)
+        r = hook(self, v, n)
+        return NONE if r is None else r
+
     def e_Starred(self, n):
         self.unsupported("starred", n)
 
